@@ -136,6 +136,12 @@ have : y \in filter P s by rewrite mem_filter Py.
 by case: (filter P s) sz => [|z [|? ?]] // _; rewrite !inE => /eqP -> /eqP ->.
 Qed.
 
+Lemma all_last (T : Type) (P : pred T) (x : T) (l : seq T) : all P (x :: l) -> P (last x l).
+Proof.
+elim: l x => [|y l IH] x /=; first by rewrite andbT.
+by move=> /andP[_]; exact: IH.
+Qed.
+
 Lemma forallbE (T : Type) (f : T -> bool) (l : seq T) : List.forallb f l = all f l.
 Proof. by elim: l => [|a l IH] //=; rewrite IH. Qed.
 
@@ -163,3 +169,346 @@ rewrite /ri_qdivides -/e -/q; apply/andP; split; first (apply/andP; split).
 - by rewrite ZeqbP.
 - by apply/peqbP; rewrite Poly_pscale Poly_pmul -dE r0 addr0.
 Qed.
+
+(* ====================================================================== one square-free factor *)
+Section Factor.
+Variable R : rcfType.
+Local Notation PR := (PR R).
+Local Notation QR := (QR R).
+Local Notation ZtoR := (ZtoR R).
+Local Notation zm := (ZtoR_rmorphism R).
+Local Notation dval := (@dval R).
+
+Variable g : seq Z.
+Hypothesis g0 : PR g != 0.
+Hypothesis simple : forall x : R, (\mu_x (PR g) <= 1)%N.
+
+Let S := lp_sturm_sequence g.
+Let s0 := ppp g.
+
+Definition Vd (q : rdy) : nat := lp_sign_changes S (rd_x q) (size S).
+
+Let g0' : Poly g != 0. Proof. by rewrite -(PR_neq0 R). Qed.
+
+Lemma s0_scale : exists2 c : R, c != 0 & PR g = c *: PR s0.
+Proof. exact: PR_ppp_scale. Qed.
+
+Lemma s0_root (x : R) : root (PR s0) x = root (PR g) x.
+Proof. by have [c c0 ->] := s0_scale; rewrite rootZ. Qed.
+
+Lemma s0_neq0 : PR s0 != 0.
+Proof. by have [c c0 E] := s0_scale; apply: contra_neq g0 => z; rewrite E z scaler0. Qed.
+
+Lemma s0_mu (x : R) : \mu_x (PR s0) = \mu_x (PR g).
+Proof. by have [c c0 ->] := s0_scale; rewrite mu_mulC. Qed.
+
+Lemma s0_roots : rootsR (PR s0) = rootsR (PR g).
+Proof. by have [c c0 ->] := s0_scale; rewrite rootsRZ. Qed.
+
+Lemma psgn_s0 (a b : Z) : (0 < b)%R -> (psgn_at_rat s0 a b == 0) = (psgn_at_rat g a b == 0).
+Proof. by move=> b0; rewrite -!(root_rat R) // s0_root. Qed.
+
+Lemma last_nonroot (x : R) : (1 < size (PR g))%N -> ~~ root (last 0 (map PR S)) x.
+Proof.
+move=> sz; have -> : last 0 (map PR S) = PR (last [::] S) by rewrite -(PR_nil R) last_map.
+apply/negP => /(lp_last_root2 sz) [r0 r1].
+by move: r1; apply/negP; exact: simple_noderiv.
+Qed.
+
+(* F1: Sturm between two dyadic points *)
+Lemma Vd_diff (x y : rdy) : dval x < dval y ->
+  Vd x = addn (Vd y) (count (fun z : R => dval x < z <= dval y) (rootsR (PR g))).
+Proof.
+move=> xy; case: (leqP (size (PR g)) 1) => [sz|sz].
+  have [SE sg] := lp_sturm_sequence_const g0 sz.
+  rewrite rootsR_const //= addn0 /Vd /S SE /lp_sign_changes /= !sg //; exact: rd_pow_gt0.
+have [G0 rE st lk] := lp_sturm_sequence_chain sz.
+rewrite /Vd !lp_sign_changesE !(sturm_var_fin R); try exact: rd_pow_gt0.
+by rewrite (sturm_chain_itv G0 st lk xy (last_nonroot _ sz) (last_nonroot _ sz)) -size_filter rE.
+Qed.
+
+(* F2: the whole line *)
+Lemma V_line : lp_count_roots_gen true S None
+               = Z.sub (Z.of_nat (sturm_var S MInf)) (Z.of_nat (sturm_var S PInf))
+  /\ (sturm_var S MInf - sturm_var S PInf)%N = size (rootsR (PR g)).
+Proof.
+split; first by rewrite /lp_count_roots_gen -!lp_sign_changesE.
+case: (leqP (size (PR g)) 1) => [sz|sz]; last exact: lp_sturm_sequence_correct.
+have [SE sg] := lp_sturm_sequence_const g0 sz.
+rewrite rootsR_const // /S SE /sturm_var /sign_var /=.
+by do 2!case: (Z.eqb _ _).
+Qed.
+
+Lemma Vd_mono (x y : rdy) : dval x < dval y -> (Vd y <= Vd x)%N.
+Proof. by move=> /Vd_diff ->; exact: leq_addr. Qed.
+
+Lemma Vd_cut (x y : rdy) : dval x < dval y -> lp_sign_changes S (rd_x y) (Vd x) = Vd y.
+Proof.
+move=> xy; rewrite lp_sign_changes_min; have := Vd_mono xy.
+by rewrite /Vd !lp_sign_changesE => /minn_idPl.
+Qed.
+
+(* exactly one root in (a, b], none at the ends: the signs at the ends are opposite *)
+Lemma one_root_sign_change (a b : rdy) : dval a < dval b -> Vd a = (Vd b + 1)%N ->
+  psgn_at s0 (rd_x a) != 0 -> psgn_at s0 (rd_x b) != 0 ->
+  (Z.mul (psgn_at s0 (rd_x a)) (psgn_at s0 (rd_x b)) < 0)%R.
+Proof.
+move=> ab V1 sa sb.
+have c1 : count (fun z => dval a < z <= dval b) (rootsR (PR g)) = 1%N.
+  by have := Vd_diff ab; rewrite V1 => /eqP; rewrite eqn_add2l eq_sym => /eqP.
+have pa : (0 < rd_pow (snd a))%R := rd_pow_gt0 _.
+have pb : (0 < rd_pow (snd b))%R := rd_pow_gt0 _.
+have nra : ~~ root (PR s0) (dval a) by rewrite /dval root_rat.
+have nrb : ~~ root (PR s0) (dval b) by rewrite /dval root_rat.
+have /hasP [v vin /andP[av vb]] : has (fun z => dval a < z <= dval b) (rootsR (PR g)) by rewrite has_count c1.
+have rv : root (PR s0) v by rewrite s0_root -in_rootsR.
+have vb' : v < dval b by rewrite lt_neqAle vb andbT; apply: contraNneq nrb => <-.
+have uq w : root (PR s0) w -> dval a < w < dval b -> w = v.
+  move=> rw /andP[aw wb]; apply: (count1_uniq c1) => //; rewrite ?aw ?av ?(ltW wb) //.
+  by rewrite in_rootsR // -s0_root.
+have mu1 : \mu_v (PR s0) = 1%N.
+  apply/eqP; rewrite eqn_leq s0_mu simple /= -s0_mu mu_gt0 //; exact: s0_neq0.
+have avb : dval a < v < dval b by rewrite av vb'.
+have := simple_root_sign_change avb rv mu1 uq nra nrb.
+rewrite /dval !sgr_horner_rat // -(rmorphM zm) /= => /eqP.
+have -> : (-1 : R) = ZtoR (-1)%ZZ.
+  by have -> : (-1)%ZZ = (- 1)%R :> Z by []; rewrite (rmorphN zm) (rmorph1 zm).
+rewrite (inj_eq (@ZtoR_inj R)) => /eqP E.
+by rewrite (_ : Z.mul _ _ = (-1)%ZZ); [|exact: E].
+Qed.
+
+
+(* ---- items lying in (a, b] *)
+Definition item_in (a b : rdy) (it : item) : bool :=
+  match it with
+  | IPoint c d => dval a < QR c d <= dval b
+  | IAlg _ la lb ha hb => (dval a <= QR la lb) && (QR ha hb <= dval b)
+  end.
+
+Lemma item_in_mono (a b a' b' : rdy) it : dval a' <= dval a -> dval b <= dval b' ->
+  item_in a b it -> item_in a' b' it.
+Proof.
+move=> la lb; case: it => [c d|p la' lb' ha hb] /= /andP[h1 h2]; apply/andP; split.
+- exact: le_lt_trans la h1.
+- exact: le_trans h2 lb.
+- exact: le_trans la h1.
+- exact: le_trans h2 lb.
+Qed.
+
+Lemma items_sortedE (l : seq item) : items_sorted l = sorted item_before l.
+Proof. by elim: l => [|a l IH] //; case: l IH => [|b l] //= ->. Qed.
+
+Lemma before_of_in (a m b : rdy) it1 it2 : item_wf it1 -> item_wf it2 ->
+  item_in a m it1 -> item_in m b it2 -> item_before it1 it2.
+Proof.
+case: it1 => [c d|p la lb ha hb]; case: it2 => [c' d'|p' la' lb' ha' hb'] /=.
+- move=> /Zltb_pos d0 /Zltb_pos d0' /andP[_ h1] /andP[h2 _]; rewrite -(QR_lt R) //.
+  exact: le_lt_trans h1 h2.
+- move=> /Zltb_pos d0 /andP[/andP[/Zltb_pos l0 _] _] /andP[_ h1] /andP[h2 _]; rewrite -(QR_le R) //.
+  exact: le_trans h1 h2.
+- move=> /andP[/andP[_ /Zltb_pos h0] _] /Zltb_pos d0 /andP[_ h1] /andP[h2 _]; rewrite -(QR_le R) //.
+  exact: ltW (le_lt_trans h1 h2).
+- move=> /andP[/andP[_ /Zltb_pos h0] _] /andP[/andP[/Zltb_pos l0 _] _] /andP[_ h1] /andP[h2 _].
+  by rewrite -(QR_le R) //; exact: le_trans h1 h2.
+Qed.
+
+Lemma sorted_cat (a m b : rdy) (l r : seq item) : all item_wf l -> all item_wf r ->
+  items_sorted l -> items_sorted r -> all (item_in a m) l -> all (item_in m b) r -> items_sorted (l ++ r).
+Proof.
+rewrite !items_sortedE; case: l => [|x l] //= wl wr sl sr il ir.
+rewrite cat_path sl /=; case: r wr sr ir => [|y r] //= /andP[wy _] -> /andP[iy _]; rewrite andbT.
+apply: (before_of_in _ wy _ iy); first exact: (all_last (P:=item_wf) wl).
+exact: (all_last (P:=item_in a m) il).
+Qed.
+
+(* ---- the algebraic number under construction *)
+Definition anum_ok (a0 b0 : rdy) (x : ri_anum) : Prop :=
+  match x with
+  | RPoint q => dval a0 < dval q <= dval b0 /\ psgn_at s0 (rd_x q) = 0%ZZ
+  | RItv p a b sa sb =>
+    [/\ p = s0, dval a0 <= dval a, dval a < dval b, dval b <= dval b0
+      & [/\ sa = psgn_at s0 (rd_x a), sb = psgn_at s0 (rd_x b) & (Z.mul sa sb < 0)%R]]
+  end.
+
+Lemma sign_step (s sa sb : Z) : sgn3 s -> sgn3 sa -> sgn3 sb -> (Z.mul sa sb < 0)%R -> s != 0 ->
+  if Z.ltb 0 (Z.mul s sa) then s = sa else s = sb.
+Proof. by case/or3P => /eqP ->; case/or3P => /eqP ->; case/or3P => /eqP ->. Qed.
+
+Lemma split_ok (a0 b0 a b : rdy) (sa sb : Z) (q : rdy) :
+  anum_ok a0 b0 (RItv s0 a b sa sb) -> dval a < dval q < dval b ->
+  anum_ok a0 b0 (let s := psgn_at s0 (rd_x q) in
+                 if Z.eqb s 0 then RPoint q
+                 else if Z.ltb 0 (Z.mul s sa) then RItv s0 q b sa sb else RItv s0 a q sa sb).
+Proof.
+move=> [_ la ab lb [Ea Eb neg]] /andP[aq qb] /=.
+case: Z.eqb_spec => [z|/eqP nz].
+  by split=> //; rewrite (le_lt_trans la aq) /=; exact: le_trans (ltW qb) lb.
+have s3a : sgn3 sa by rewrite Ea; exact: psgn_at_sgn3.
+have s3b : sgn3 sb by rewrite Eb; exact: psgn_at_sgn3.
+have := sign_step (psgn_at_sgn3 s0 (rd_x q)) s3a s3b neg nz.
+case: ifP => _ E; split=> //; try (by split=> //; rewrite -E);
+  try exact: le_trans la (ltW aq); try exact: le_trans (ltW qb) lb.
+Qed.
+
+Lemma refine_ok (a0 b0 : rdy) x : anum_ok a0 b0 x -> anum_ok a0 b0 (ri_refine x).
+Proof.
+case: x => [q|p a b sa sb] // ok; have [Ep _ ab _ _] := ok; rewrite Ep in ok *.
+exact: (split_ok ok (dval_mid_lt ab)).
+Qed.
+
+Lemma refine_point_ok (a0 b0 : rdy) x q : anum_ok a0 b0 x -> anum_ok a0 b0 (ri_refine_with_point x q).
+Proof.
+case: x => [q'|p a b sa sb] // ok; have [Ep _ ab _ _] := ok; rewrite Ep in ok *.
+rewrite /ri_refine_with_point; have := rd_cmp_lt R a q; have := rd_cmp_lt R q b.
+case: (rd_cmp a q) => //; case: (rd_cmp q b) => // /esym qb /esym aq.
+by apply: (split_ok ok); rewrite aq qb.
+Qed.
+
+Lemma shrink_ok (a0 b0 : rdy) fuel x y : ri_shrink fuel x = Some y -> anum_ok a0 b0 x -> anum_ok a0 b0 y.
+Proof.
+elim: fuel x y => [|f IH] x y; case: x => [q|p a b sa sb].
+- by move=> [<-].
+- by rewrite /=; case: ifP => // _ [<-].
+- by move=> [<-].
+- change (ri_shrink f.+1 (RItv p a b sa sb)) with
+    (if Z.leb 0 (rd_dist_size a b) then ri_shrink f (ri_refine (RItv p a b sa sb)) else Some (RItv p a b sa sb)).
+  case: ifP => _; last by move=> [<-].
+  by move=> /IH H ok; apply: H; exact: (refine_ok ok).
+Qed.
+
+Lemma construct_ok fuel (a b : rdy) x : lp_anum_construct fuel s0 a b = Some x -> dval a < dval b ->
+  (Z.mul (psgn_at s0 (rd_x a)) (psgn_at s0 (rd_x b)) < 0)%R -> anum_ok a b x.
+Proof.
+rewrite /lp_anum_construct; case E: ri_shrink => [y|] // [<-] ab neg.
+have oky : anum_ok a b y by apply: (shrink_ok E); split=> //; split.
+set x1 := match y with RItv _ _ _ _ _ => _ | _ => _ end.
+have ok1 : anum_ok a b x1 by rewrite /x1; case: (y) oky => // *; exact: refine_point_ok.
+by case: x1 ok1 => // *; exact: refine_point_ok.
+Qed.
+
+Lemma Zltb0_pow (n : N) : Z.ltb 0 (rd_pow n).
+Proof. by apply/Z.ltb_lt; have := rd_pow_gt0 n; lia. Qed.
+
+Lemma Poly_s0_neq0 : Poly s0 != 0.
+Proof. by rewrite Poly_ppp_eq0. Qed.
+
+Lemma anum_item (a0 b0 : rdy) x : anum_ok a0 b0 x ->
+  [/\ item_wf (item_of_anum x), item_ok g (item_of_anum x) & item_in a0 b0 (item_of_anum x)].
+Proof.
+case: x => [q|p a b sa sb] /=.
+  move=> [ab z]; split=> //; first exact: Zltb0_pow.
+  by rewrite ZeqbP -psgn_s0 ?rd_pow_gt0 //; apply/eqP.
+move=> [-> la ab lb [Ea Eb neg]]; split.
+- by rewrite !Zltb0_pow /= -(dval_lt R).
+- rewrite (rdvd_qdivides Poly_s0_neq0 g0' (ppp_dvd g)) /=.
+  by move: neg; rewrite Ea Eb /= => neg; apply/Z.ltb_lt; lia.
+- by rewrite la lb.
+Qed.
+
+(* ---- the recursion on (a, b] *)
+Definition isplit (fuel' : nat) (a b : rdy) (a_ch b_ch : nat) : option (list ri_anum) :=
+  let m := rd_mid a b in
+  let m_ch := lp_sign_changes S (rd_x m) a_ch in
+  if Nat.eqb a_ch m_ch then lp_isolate fuel' S m b a_ch b_ch
+  else if Nat.eqb b_ch m_ch then lp_isolate fuel' S a m a_ch b_ch
+  else match lp_isolate fuel' S a m a_ch m_ch, lp_isolate fuel' S m b m_ch b_ch with
+       | Some l, Some r => Some (l ++ r)
+       | _, _ => None
+       end.
+
+Lemma lp_isolate_S fuel' a b a_ch b_ch : lp_isolate fuel'.+1 S a b a_ch b_ch =
+  if Z.eqb (Z.sub (Z.of_nat a_ch) (Z.of_nat b_ch)) 1 then
+    if Z.eqb (psgn_at s0 (rd_x b)) 0 then Some [:: RPoint b]
+    else if negb (Z.eqb (psgn_at s0 (rd_x a)) 0) then
+      match lp_anum_construct fuel' s0 a b with Some x => Some [:: x] | None => None end
+    else isplit fuel' a b a_ch b_ch
+  else isplit fuel' a b a_ch b_ch.
+Proof. by []. Qed.
+
+Definition iso_ok (a b : rdy) (l : seq ri_anum) (a_ch b_ch : nat) : Prop :=
+  let its := map item_of_anum l in
+  [/\ all item_wf its, all (item_ok g) its, items_sorted its, all (item_in a b) its
+     & (size l + b_ch = a_ch)%N].
+
+Lemma isolateP fuel (a b : rdy) (a_ch b_ch : nat) l : dval a < dval b -> a_ch = Vd a -> b_ch = Vd b ->
+  lp_isolate fuel S a b a_ch b_ch = Some l -> iso_ok a b l a_ch b_ch.
+Proof.
+elim: fuel a b a_ch b_ch l => [|f IH] a b a_ch b_ch l ab Ea Eb //.
+rewrite Ea Eb {a_ch b_ch Ea Eb}.
+have splitP : isplit f a b (Vd a) (Vd b) = Some l -> iso_ok a b l (Vd a) (Vd b).
+  rewrite /isplit; have /andP[am mb] := dval_mid_lt ab.
+  rewrite (Vd_cut am); case: Nat.eqb_spec => [E1|_].
+    move=> /(IH _ _ _ _ l mb E1 erefl) [h1 h2 h3 h4 h5]; split=> //.
+    by apply: sub_all h4 => it; apply: item_in_mono => //; exact: ltW.
+  case: Nat.eqb_spec => [E2|_].
+    move=> /(IH _ _ _ _ l am erefl E2) [h1 h2 h3 h4 h5]; split=> //.
+    by apply: sub_all h4 => it; apply: item_in_mono => //; exact: ltW.
+  case E1: (lp_isolate f S a _ _ _) => [l1|] //; case E2: (lp_isolate f S _ b _ _) => [r1|] // [<-].
+  have [a1 a2 a3 a4 a5] := IH _ _ _ _ _ am erefl erefl E1.
+  have [b1 b2 b3 b4 b5] := IH _ _ _ _ _ mb erefl erefl E2.
+  split; rewrite /= ?map_cat ?all_cat ?a1 ?b1 ?a2 ?b2 //.
+  - exact: (sorted_cat a1 b1 a3 b3 a4 b4).
+  - apply/andP; split.
+      by apply: sub_all a4 => it; apply: item_in_mono => //; exact: ltW.
+    by apply: sub_all b4 => it; apply: item_in_mono => //; exact: ltW.
+  - by rewrite size_cat; lia.
+rewrite lp_isolate_S.
+case: Z.eqb_spec => [tot1|_]; last exact: splitP.
+case: Z.eqb_spec => [bz|/eqP bnz].
+  move=> [<-]; have okb : anum_ok a b (RPoint b) by split=> //; rewrite ab lexx.
+  have [w o i] := anum_item okb; split; rewrite /= ?andbT //.
+  by move: (Vd a) (Vd b) tot1 => u v; lia.
+case: Z.eqb_spec => [az|/eqP anz] /=; first exact: splitP.
+case E: lp_anum_construct => [x|] // [<-].
+have V1 : Vd a = (Vd b + 1)%N by lia.
+have neg := one_root_sign_change ab V1 anz bnz.
+have [w o i] := anum_item (construct_ok E ab neg).
+split; rewrite /= ?andbT //.
+by move: (Vd a) (Vd b) tot1 => u v; lia.
+Qed.
+
+(* ---- growing (-1, 1] *)
+Lemma growP fuel (a b : rdy) (total : Z) a' b' a_ch b_ch :
+  lp_grow fuel S a b total = Some (a', b', a_ch, b_ch) -> dval a < 0 < dval b ->
+  [/\ dval a' < dval b', a_ch = Vd a', b_ch = Vd b' & Z.sub (Z.of_nat a_ch) (Z.of_nat b_ch) = total].
+Proof.
+elim: fuel a b => [|f IH] a b //=; case: Z.eqb_spec => [E|_].
+  by move=> [<- <- <- <-] /andP[a0 b0]; split=> //; exact: lt_trans a0 b0.
+move=> /IH H /andP[a0 b0]; apply: H.
+by rewrite !dval_scale2 pmulr_rlt0 ?ltr0n // pmulr_rgt0 ?ltr0n // a0 b0.
+Qed.
+
+(* ---- one factor of upolynomial_roots_isolate_sturm *)
+Definition lp_isolate_one (fuel : nat) : option (list ri_anum) :=
+  if Z.eqb (List.nth 0 (pnorm g) 0%ZZ) 0 then Some [:: RPoint (0%ZZ, 0%num)]
+  else match lp_grow fuel S (Zneg xH, 0%num) (Zpos xH, 0%num) (lp_count_roots_gen true S None) with
+       | None => None
+       | Some (a, b, a_ch, b_ch) => if Nat.ltb b_ch a_ch then lp_isolate fuel S a b a_ch b_ch else Some [::]
+       end.
+
+Theorem lp_isolate_one_ok fuel l :
+  (Z.eqb (List.nth 0 (pnorm g) 0%ZZ) 0 -> g = [:: 0%ZZ; 1%ZZ]) ->
+  lp_isolate_one fuel = Some l -> check_isolation g (map item_of_anum l).
+Proof.
+move=> gx; rewrite /lp_isolate_one; case: ifP => [z|_].
+  by move=> [<-]; rewrite (gx z).
+case G: lp_grow => [[[[a b] a_ch] b_ch]|] //.
+have init : dval (Zneg xH, 0%num) < 0 < dval (Zpos xH, 0%num).
+  by rewrite !dval_int ZtoR_lt0 ZtoR_gt0.
+have [ab Ea Eb tot] := growP G init.
+have [T1 T2] := V_line; rewrite T1 in tot.
+have Vab := Vd_diff ab.
+have csz := count_size (fun z : R => dval a < z <= dval b) (rootsR (PR g)).
+have nzg : ~~ pis_zero g by rewrite -(PR_eq0 R).
+have cc : certified_count g = Some (size (rootsR (PR g))).
+  by rewrite certified_count_total // (count_real_roots_correct R).
+case: Nat.ltb_spec => [lt|ge].
+  move=> /(isolateP ab Ea Eb) [h1 h2 h3 h4 h5].
+  rewrite /check_isolation !forallbE nzg h1 h2 h3 cc /=; apply/Nat.eqb_eq.
+  have -> : length (map item_of_anum l) = size l by rewrite -[LHS]/(size _) size_map.
+  by move: (size l) (sturm_var S MInf) (sturm_var S PInf) (size _) (count _ _) h5 Vab tot T2 csz Ea Eb => *; lia.
+move=> [<-]; rewrite /check_isolation nzg cc /=; apply/Nat.eqb_eq.
+by move: (sturm_var S MInf) (sturm_var S PInf) (size _) (count _ _) Vab tot T2 csz Ea Eb => *; lia.
+Qed.
+
+End Factor.
